@@ -63,6 +63,18 @@ impl Packet {
 
         // Test with a stream with exactly the size to check border panics
         let packet = stream.split_to(fixed_header.frame_length());
+
+        // The frame is complete and has been taken off the stream: running out of
+        // bytes while parsing it (e.g. a missing property length) means that it is
+        // malformed, not that more bytes should be awaited
+        Self::read_frame(fixed_header, packet).map_err(|e| match e {
+            Error::InsufficientBytes(_) => Error::MalformedPacket,
+            e => e,
+        })
+    }
+
+    /// Parses one complete frame.
+    fn read_frame(fixed_header: FixedHeader, packet: BytesMut) -> Result<Packet, Error> {
         let packet_type = fixed_header.packet_type()?;
 
         if fixed_header.remaining_len == 0 {
